@@ -283,10 +283,13 @@ func vC04Dns64History(out *vC04Out, r *rand.Rand, budget int, scn *vC04D64Scn) i
 				amb = true
 			}
 		}
-		var obs []string
+		var obs, cobs []string
 		for _, rr := range resp.Answer {
-			if rr.Header().Rrtype == dns.TypeAAAA {
+			switch rr.Header().Rrtype {
+			case dns.TypeAAAA:
 				obs = append(obs, fmt.Sprint(rr.Header().Ttl))
+			case dns.TypeCNAME:
+				cobs = append(cobs, fmt.Sprint(rr.Header().Ttl))
 			}
 		}
 		if len(obs) == 0 {
@@ -418,8 +421,8 @@ func vC04Dns64History(out *vC04Out, r *rand.Rand, budget int, scn *vC04D64Scn) i
 			kk += "-baresoa"
 		}
 		out.emit(map[string]any{"k": kk, "nontrivial": true, "go_fail": fail,
-			"coq": fmt.Sprintf("CDns64 %v %s %d [%s] [%s] %s %s %s [%s]%%Z", hasSOA, negPiece, minimum,
-				strings.Join(addrs, "; "), strings.Join(via, "; "), vC04Z(t0), vC04Z(t1), bobs, strings.Join(obs, "; ")),
+			"coq": fmt.Sprintf("CDns64 %v %s %d [%s] [%s] %s %s %s [%s]%%Z [%s]%%Z", hasSOA, negPiece, minimum,
+				strings.Join(addrs, "; "), strings.Join(via, "; "), vC04Z(t0), vC04Z(t1), bobs, strings.Join(obs, "; "), strings.Join(cobs, "; ")),
 			"desc": map[string]any{"route": route, "reply": resp.String(), "went_downstream": env.stub.calls}})
 		emitted++
 	}
